@@ -116,17 +116,12 @@ func splitContractRecord(v string) (string, string, bool) {
 // compareNodes compares the decoded database content and every Reader answer of A and B and
 // turns each difference into a finding. `when` says at which point of the scenario.
 func compareNodes(r *ExecResult, a, b *Node, u *Universe, when string, newState bool, implicit map[string]bool, crossedCachedWindow bool) {
-	da, err := dumpDB(a.DB)
+	diffs, nkeys, err := diffDatabases(a.DB, b.DB)
 	if err != nil {
 		r.find("harness-db-dump-failed", err.Error(), nil)
 		return
 	}
-	dbb, err := dumpDB(b.DB)
-	if err != nil {
-		r.find("harness-db-dump-failed", err.Error(), nil)
-		return
-	}
-	r.Compared += len(da)
+	r.Compared += nkeys
 	deployHeightOnly := map[string]bool{} // system contracts whose record differs only in the deploy height
 	type group struct {
 		n     int
@@ -142,7 +137,7 @@ func compareNodes(r *ExecResult, a, b *Node, u *Universe, when string, newState 
 		g.n++
 	}
 	staleLeaf := map[string]bool{} // "owner/slot" of storage-trie leaves present only in A
-	for _, d := range diffDumps(da, dbb) {
+	for _, d := range diffs {
 		bucket := bucketOf(d.Key)
 		if newState && (bucket == "ContractTrieStorage" || bucket == "ContractTrieContract" || bucket == "ClassTrie") &&
 			d.B == "<absent>" && strings.HasSuffix(d.Key, "fb") {
@@ -155,6 +150,20 @@ func compareNodes(r *ExecResult, a, b *Node, u *Universe, when string, newState 
 			}
 			add("newstate-deleted-trie-leaf-stays-on-disk-after-revert", d)
 			continue
+		}
+		if bucket == "AggregatedBloomFilters" && d.B == "<absent>" {
+			// a persisted window that only A has: known defect when it is the window A's running
+			// filter has reopened (onReorg loads it but leaves it on disk)
+			k := strings.TrimPrefix(d.Key, "AggregatedBloomFilters/")
+			if h, err := a.BC.Height(); err == nil && len(k) == 32 {
+				var from uint64
+				fmt.Sscanf(k[:16], "%x", &from)
+				next := h + 1
+				if from == next-next%core.NumBlocksPerFilter {
+					add(sigStaleWindow, d)
+					continue
+				}
+			}
 		}
 		if bucket == "Class" && implicit[feltText(strings.TrimPrefix(d.Key, "Class/"))] {
 			add("class-of-deployed-contract-survives-revert", d)
@@ -182,8 +191,14 @@ func compareNodes(r *ExecResult, a, b *Node, u *Universe, when string, newState 
 			blocks = append(blocks, n)
 		}
 	}
-	oa := observe(a.BC, u, blocks, blocks)
-	ob := observe(b.BC, u, blocks, blocks)
+	stateBlocks := blocks
+	if u.ObsFrom > 0 {
+		if h, err := a.BC.Height(); err == nil {
+			stateBlocks = []uint64{h}
+		}
+	}
+	oa := observe(a.BC, u, stateBlocks, blocks)
+	ob := observe(b.BC, u, stateBlocks, blocks)
 	r.Compared += len(oa)
 	type ogroup struct {
 		n     int
@@ -257,6 +272,8 @@ func classifyRevertError(err error, newState bool, chainBefore []*lib.BlockSpec)
 	}
 	return "revert-fails-on-stored-block"
 }
+
+const sigStaleWindow = "stale-persisted-filter-window-after-revert"
 
 const execHeaderSeed = 0xC04
 
@@ -350,6 +367,16 @@ func execScenario(sc *Scenario, opt lib.GenOptions, withTrace bool) *ExecResult 
 				return r
 			}
 		}
+		if ri == 0 && snap != nil && snap.Height() == p {
+			line = snap
+		} else {
+			nl, err := line.ForkAt(p)
+			if err != nil {
+				r.Skipped = err.Error()
+				return r
+			}
+			line = nl
+		}
 		compareNodes(r, a, b, u, fmt.Sprintf("round %d after reverting %d block(s) to height %d", ri, k, p), sc.NewState, implicit, false)
 		r.Trace.checkpoint(a, u, len(rd.Fork) == 0 && ri == len(sc.Rounds)-1)
 		if sc.Restart {
@@ -363,16 +390,6 @@ func execScenario(sc *Scenario, opt lib.GenOptions, withTrace bool) *ExecResult 
 			}
 		}
 		// the fork
-		if ri == 0 && snap != nil && snap.Height() == p {
-			line = snap
-		} else {
-			nl, err := line.ForkAt(p)
-			if err != nil {
-				r.Skipped = err.Error()
-				return r
-			}
-			line = nl
-		}
 		for j, spec := range rd.Fork {
 			bd, err := line.Next(spec)
 			if err != nil {
@@ -427,7 +444,11 @@ func restartCompare(r *ExecResult, a, b *Node, line *Line, u *Universe, newState
 	ea, eb := a2.Store(bd), b2.Store(bd)
 	r.hit("restart-compared")
 	if (ea == nil) != (eb == nil) {
-		r.find("restarted-node-store-differs-after-revert",
+		sig := "restarted-node-store-differs-after-revert"
+		if ea != nil && strings.Contains(ea.Error(), "block number is not within range") && r.has(sigStaleWindow) {
+			sig = sigStaleWindow
+		}
+		r.find(sig,
 			fmt.Sprintf("%s: after a restart A answers %q and B answers %q to the same next block %d", when, errClass(ea), errClass(eb), bd.Block.Number),
 			map[string]any{"a": errClass(ea), "b": errClass(eb)})
 		return
